@@ -13,12 +13,14 @@ WRITE_WIDTH = {"write_two": 2, "write_one": 1, "write_year": 4}
 def run(chk, tier):
     P = Prog("default")
     chk.configs.add("default")
-    for r in (r_numeric, r_setters, r_fixed, r_names, r_flow, r_whitespace, r_sign_arms, r_own_ranges, r_ampm, r_long_names):
+    for r in (r_numeric, r_setters, r_fixed, r_names, r_flow, r_whitespace, r_sign_arms, r_own_ranges, r_ampm, r_long_names, r_parse_entry):
         chk.guarded(r, P, tier)
     from props import c14
     chk.guarded(c14.r_offset_used, P, tier)
     chk.guarded(c14.r_verify_halves, P, tier)
     chk.guarded(c14.r_resolve_year_map, P, tier)
+    from props import c10
+    chk.guarded(c10.r_fraction_scale, P, tier)
     chk.guarded(c12.r_numeric_writers, P, tier)
     chk.assume("the round trip itself (for any value), white-space and letter-case perturbations are NOT decided; only that reader and writer agree item by item on width, sign and field")
     return {
@@ -249,3 +251,21 @@ def r_long_names(chk, P, tier):
     sa, sb = sig(a), sig(b)
     chk.expect(sa == sb, "same calls", "the two long-name scanners differ: month uses %s, weekday uses %s" % (sa, sb), loc=P.loc(b))
     chk.expect("eq_ignore_ascii_case" in sa and "len" in sa, "case-insensitive with length guard", "long-name suffix comparison is %s (expected len guard + eq_ignore_ascii_case: the writer's case is not the only accepted one)" % sa, loc=P.loc(a))
+
+
+def r_parse_entry(chk, P, tier):
+    """parse_from_str and parse_and_remainder of one type are the same reader with and without the remainder: both resolve the parsed fields through the same Parsed
+    resolver (to_naive_date, to_naive_time, to_naive_datetime_with_offset, to_datetime) and no other"""
+    chk.rule("SIB.parse_entry", "parse_from_str and parse_and_remainder of each type call the same Parsed resolver", floor=4)
+    types = {"naive::date::NaiveDate": "to_naive_date", "naive::time::NaiveTime": "to_naive_time", "naive::datetime::NaiveDateTime": "to_naive_datetime_with_offset",
+             "datetime::DateTime::<offset::fixed::FixedOffset>": "to_datetime"}
+    for ty, want in types.items():
+        got = {}
+        for m in ("parse_from_str", "parse_and_remainder"):
+            fn = "%s::%s" % (ty, m)
+            if not P.has(fn):
+                raise AnchorLost(fn + " not found")
+            got[m] = sorted(c.split("::")[-1] for c in callees(P, fn) if c.startswith("format::parsed::Parsed::to_"))
+        ok = got["parse_from_str"] == got["parse_and_remainder"] == [want]
+        chk.expect(ok, ty.split("::")[-1].split("<")[0], "%s: parse_from_str resolves through %s, parse_and_remainder through %s (expected both: %s)" % (
+            ty, got["parse_from_str"], got["parse_and_remainder"], want), loc=P.loc("%s::parse_and_remainder" % ty))
